@@ -71,6 +71,7 @@ static int cfg_metrics;
 static char scratch[160] = "/var/tmp";
 static int sink_fd; static struct sockaddr_in sink_addr;
 static struct { long k; long d; } eintr[64]; static int neintr;
+static long fullat[128]; static int nfull;   /* poll calls whose non-empty batch is padded to a completely full one */
 static long npolls, polllimit = 400;
 static int fs_traffic, touch_no;
 
@@ -189,6 +190,12 @@ int epoll_pwait(int epfd, struct epoll_event* ev, int maxev, int timeout, const 
   }
   printf("env poll iter=%llu timeout=%d clock=%llu done=%d ->", it, timeout, (unsigned long long) vclock_ms, done);
   for (int i = 0; i < n; i++) printf(" %s:%u", names[i], (unsigned) ev[i].events);
+  for (int i = 0; i < nfull; i++) if (fullat[i] == k && n < maxev) {
+    /* a completely full batch: the rest are entries libuv treats as invalidated (data.fd == -1, cf. uv__platform_invalidate_fd) */
+    for (int j = n; j < maxev; j++) { ev[j].events = EPOLLIN; ev[j].data.fd = -1; }
+    n = maxev; printf(" FULL");
+    break;
+  }
   printf("\n");
   return n;
 }
@@ -496,7 +503,11 @@ static void exec_op(char* text0) {
   if (!strcmp(o, "update_time") && nw == 1) { uv_update_time(&loop); RET(0); }
   if (!strcmp(o, "advance") && nw == 2) { vclock_ms += strtoull(w[1], 0, 10); RET(0); }
   if (!strcmp(o, "alive") && nw == 1) RET(uv_loop_alive(&loop) != 0);
-  if (!strcmp(o, "backend_timeout") && nw == 1) RET(uv_backend_timeout(&loop));
+  if (!strcmp(o, "backend_timeout") && nw == 1) {
+    /* for the monitors: are descriptor registrations still waiting to be applied? (public struct field) */
+    printf("res wq=%d\n", loop.watcher_queue.next != &loop.watcher_queue);
+    RET(uv_backend_timeout(&loop));
+  }
   if (!strcmp(o, "now") && nw == 1) RETU(uv_now(&loop));
   if (!strcmp(o, "is_active") && nw == 2 && live(i)) RET(uv_is_active(H[i].ptr) != 0);
   if (!strcmp(o, "has_ref") && nw == 2 && live(i)) RET(uv_has_ref(H[i].ptr) != 0);
@@ -547,6 +558,9 @@ int main(int argc, char** argv) {
       else if (sscanf(line, "config cblimit %ld", &v) == 1) cblimit = v;
       else if (sscanf(line, "config polllimit %ld", &v) == 1) polllimit = v;
       else if (sscanf(line, "config eagain %ld", &v) == 1) eagain_budget = v;
+      else if (!strncmp(line, "config full", 11)) {
+        p = line + 11; char* save; for (char* t = strtok_r(p, " ", &save); t && nfull < 128; t = strtok_r(NULL, " ", &save)) fullat[nfull++] = atol(t);
+      }
       else if ((p = strstr(line, "eintr")) != NULL) {
         p += 5; char* save; for (char* t = strtok_r(p, " ", &save); t && neintr < 64; t = strtok_r(NULL, " ", &save))
           if (sscanf(t, "%ld:%ld", &eintr[neintr].k, &eintr[neintr].d) == 2) neintr++;
